@@ -293,12 +293,15 @@ def simple_cases_check(prop, tla, cfgs, subcmd, rule, model_text, key_of, assump
 
 
 def c07():
+    tier, _ = tier_seed()
     return simple_cases_check(
-        "C07", "GrlSiblings.tla", ["MCSiblings.cfg"], "sib-replay",
+        "C07", "GrlSiblings.tla", ["MCSiblings.cfg"] + (["MCSiblingsPool.cfg"] if tier == "thorough" else []), "sib-replay",
         rule="case = pair of near-identical sibling rules (one constant digit beyond the 6th decimal / sign / exponent / int vs float / string "
              "characters incl. quotes, brackets and the engine's node-signature syntax / one operator / one negation / operand order / selector / "
-             "argument) with 3-4 fact states; each rule is built alone, the pair in both orders, in two resources in both orders, and among other "
-             "rules (7 knowledge bases per case); in each, FetchMatchingRules membership and the value stored by Execute must equal what the model "
+             "argument - on plain paths and through call results F.Me().X, F.GetArr()[0], F.GetM()[\"a\"], F.Other().X -, constants of different "
+             "types with coinciding stored encodings) with 3-5 fact states; each rule is built alone, the pair in both orders, in two resources in both "
+             "orders, among other rules, and three times stored and loaded (10 knowledge bases per case); thorough tier: ANY two of the 145 rules "
+             "of the pool (20 880 ordered pairs); in each, FetchMatchingRules membership and the value stored by Execute must equal what the model "
              "computes for the rule alone. Every case is a distinct TLC state and distinguishes its two siblings (invariant Distinguishable).",
         model_text="GrlSiblings.tla / MCSiblings.cfg: all sibling families, invariant Distinguishable",
         key_of=lambda m: (m["fam"], m["config"], m["what"].split()[0]),
@@ -319,7 +322,9 @@ def c04():
     return simple_cases_check(
         "C04", "GrlAssign.tla", ["MCAssign.cfg"], "asg-replay",
         rule="case = action list of one assignment (every location of the store x 5 forms x constants / reads of locations of other kinds / "
-             "arithmetic over them) or of two assignments where the second right-hand side reads the first target; locations: struct fields of every "
+             "arithmetic over them), of two assignments where the second right-hand side reads the first target, of three (x := a; a := v; y := x: "
+             "copy semantics), and the scaled families (64-bit integer places, every integer times 2^53+1, set / add / sub); locations: time.Time fields, "
+             "unsigned slice elements and map entries, struct fields of every "
              "integer / unsigned / float width, string, bool, fields behind a pointer, *int64 / *float64 fields, slice elements, map entries, JSON "
              "members (nested, array element), top-level context variables. After Execute the WHOLE fact (40 locations) is compared with the "
              "expected store, so wrong targets and clobbered neighbours show; a kind the map refuses must yield an error with the earlier effects kept.",
@@ -328,7 +333,7 @@ def c04():
         assumptions=["TLC and the Json module", "the harness's location table (initial values equal the model's Store0, checked implicitly on every "
                      "untouched location of every case)", "values are small and dyadic: no overflow, float32/float64 exact; values outside the "
                      "destination's range, string+real renderings and reads of *number fields as plain right-hand sides are outside the family"],
-        not_modelled=["time.Time destinations"], chunks=8, workers=8, extra_cov=extra, extra_violations=eng["violations"],
+        not_modelled=["time arithmetic", "bare reads of pointer-to-number fields"], chunks=8, workers=8, extra_cov=extra, extra_violations=eng["violations"],
         extra_unrep=eng["unreproduced"])
 
 
